@@ -17,7 +17,7 @@
    real process kill or power loss (fsync, journal recovery) is the database's, not resonate's; the correspondence
    check restarts the kernel on the same database file without closing the old connection first and compares what
    the restarted server finds with the model. *)
-From RV Require Import Mon MonC06 MonC01 MonC05 MonC08 SysInv PC06 PC01 PC05 PC08.
+From RV Require Import Mon MonC06 MonC01 MonC05 MonC08 SysInv PC06 PC01 PC05 PC08 Commit.
 From RV Require Sql.
 
 Theorem C06_crash : forall cfg s s' ob,
@@ -78,3 +78,20 @@ Definition bad_trace : list (directive * list obs) :=
     (DExec [], [OExec [] (Some []) (mkDb [] [] [] [] [] 0 0 0)]) ].
 Example C06_monitor_detects : C06_mon bad_trace = [(601, 2%nat)].
 Proof. vm_compute. reflexivity. Qed.
+
+(* a batch whose commit cannot be made (family `commit`: a reader holds the database file while the production store
+   executes the batch) is reported as failed and leaves the durable state untouched; and whatever the store
+   acknowledges is exactly what exec_batch made durable: acknowledged implies durable, failed implies unchanged *)
+Theorem C06_acknowledged_is_durable : forall d blocked txns d' cs rs snap,
+    commit_outcome d blocked txns = (d', OExec cs rs snap) ->
+    snap = d' /\ match rs with
+                 | Some rss => exec_batch d txns = Some (d', rss)
+                 | None => d' = d
+                 end.
+Proof.
+  intros d blocked txns d' cs rs snap H. unfold commit_outcome in H.
+  destruct (exec_batch d txns) as [[d1 rss]|] eqn:E.
+  - destruct (blocked && negb (batch_reads_only txns)); inversion H; subst; split; reflexivity.
+  - inversion H; subst. split; reflexivity.
+Qed.
+Print Assumptions C06_acknowledged_is_durable.
